@@ -85,8 +85,13 @@ class Indentation(afmformats.AFMForceDistance):
                             self.fit_properties["preprocessing_options"]]
         else:
             preproc_past = []
+        # The settings in `fit_properties` may have been edited directly:
+        # the data are only up to date if the pipeline that was actually
+        # applied is the requested one as well.
+        preproc_applied = [self.preprocessing, self.preprocessing_options]
 
         if ((preproc_past != [preprocessing, options])
+                or (preproc_applied != [preprocessing, options])
                 or (not self._preprocessing_details and ret_details)):
             # Remember initial fit parameters for user convenience
             fp = self.fit_properties
